@@ -11,6 +11,7 @@ import CamVerif.Proofs.C03Fuel
 import CamVerif.Proofs.C03Spec
 import CamVerif.Proofs.C03SpecW
 import CamVerif.Proofs.C03Total
+import CamVerif.Proofs.C03Acyclic
 namespace CamVerif.C03
 open CamVerif CamVerif.GenApi CamVerif.GenApiSem
 
@@ -663,31 +664,16 @@ theorem acyclic_terminates (cx : Ctx F E) (rank : NodeId → Nat) (hA : Acyclic 
   have h1 := fuel_mono cx (rank (reqNode req) + 1) k req st h0
   exact ⟨by rw [h1]; exact h0, h1⟩
 
-/-- The syntactic form of acyclicity (every node id mentioned by a node — controllers, value
-sources and targets, selectors, indexed values, address and length elements, formula
-variables, converter pValue — has a strictly smaller rank).  That it implies the semantic
-`Acyclic` is not proved here (listed as partial); kept as a type-checked statement. -/
-def acyclic_syntactic_statement : Prop :=
-  ∀ (F E : Type) (cx : Ctx F E) (rank : NodeId → Nat) (refs : Node F E → List NodeId),
-    (∀ n nd, cx.graph n = some nd → ∀ p ∈ refs nd, rank p < rank n) →
-    (∀ nd p, p ∈ refs nd ↔
-      (nd.base.pIsImplemented = some p ∨ nd.base.pIsAvailable = some p ∨ nd.base.pIsLocked = some p ∨
-       (∃ rb, nd.regBase? = some rb ∧
-          (rb.length = .pnode p ∨ .address (.pnode p) ∈ rb.addrs ∨ .intSwissKnife p ∈ rb.addrs ∨
-           (∃ o, .pIndex p o ∈ rb.addrs) ∨ (∃ q, .pIndex q (some (.pnode p)) ∈ rb.addrs))) ∨
-       (∃ b vk mn mx inc, (nd = .integer b vk mn mx inc ∧ (mn = .pnode p ∨ mx = .pnode p ∨ inc = .pnode p)) ∨
-          (∃ finc, nd = .float b vk mn mx finc ∧ (mn = .pnode p ∨ mx = .pnode p ∨ finc = some (.pnode p))) ∨
-          ((nd = .integer b vk mn mx inc ∨ ∃ finc, nd = .float b vk mn mx finc) ∧
-            (vk = .pValue p [] ∨ (∃ q cs, vk = .pValue q cs ∧ (p = q ∨ p ∈ cs)) ∨
-             (∃ sel es d, vk = .pIndex sel es d ∧ (p = sel ∨ d = .pnode p ∨ ∃ i, (i, .pnode p) ∈ es))))) ∨
-       (∃ b fm a c, (nd = .converter b fm a c p ∨ nd = .intConverter b fm a c p)) ∨
-       (∃ b fm a c q nm, (nd = .converter b fm a c q ∨ nd = .intConverter b fm a c q ∨
-          nd = .swissKnife b fm a ∨ nd = .intSwissKnife b fm a) ∧ (nm, p) ∈ fm.vars) ∨
-       (∃ b v x y, nd = .boolean b v x y ∧ v = .pnode p) ∨
-       (∃ b v c, nd = .command b v c ∧ (v = .pnode p ∨ c = .pnode p)) ∨
-       (∃ b es v, nd = .enumeration b es v ∧ v = .pnode p) ∨
-       (∃ b v, nd = .string b v ∧ v = .pnode p))) →
-    Acyclic cx rank
+/-- **acyclic_terminates**, syntactic form: if every node id a node mentions (controllers,
+value sources and targets incl. copies, selectors and indexed values, min / max / inc
+nodes, address and length elements, formula variables, converter pValue — `Node.Ref`)
+has a strictly smaller rank (`WellRanked`), a request on node `n` is answered with fuel
+`rank n + 1` and the answer is the same for every larger fuel. -/
+theorem acyclic_terminates_syntactic (cx : Ctx F E) (rank : NodeId → Nat) (hW : WellRanked cx rank)
+    (hops : OpsTotal cx.ops) (req : Req F) (st : St F) (k : Nat) :
+    (exec cx (rank (reqNode req) + 1 + k) req st).1 ≠ .err .outOfFuel ∧
+    exec cx (rank (reqNode req) + 1 + k) req st = exec cx (rank (reqNode req) + 1) req st :=
+  acyclic_terminates cx rank hW.acyclic hops req st k
 
 private theorem runR_fst {α : Type} (m : R F α) (f : α → Val F) (st : St F) :
     (runR m f st).1 =
@@ -930,6 +916,21 @@ example : NoFormulaNodes Ex.cx := fun n =>
   match n with
   | 0 | 1 | 2 | 3 | 4 | 5 | 6 | 7 | 8 | 9 | 10 | 11 => trivial
   | _ + 12 => trivial
+/-- the 12-node example graph is well ranked by the node id (references go to smaller ids) -/
+example : WellRanked Ex.cx (fun n => n) := by
+  intro n nd p hg hr
+  match n, hg with
+  | 0, hg | 1, hg | 2, hg | 3, hg | 7, hg | 8, hg | 9, hg =>
+    simp only [Ex.cx, Ex.graph, Option.some.injEq] at hg; subst hg
+    simp [Node.Ref, RegBase.Ref, Base.Ref, ValueKind.Ref, ImmOrPNode.Ref, AddressKind.Ref] at hr
+  | 4, hg | 5, hg | 6, hg | 10, hg | 11, hg =>
+    simp only [Ex.cx, Ex.graph, Option.some.injEq] at hg; subst hg
+    simp [Node.Ref, RegBase.Ref, Base.Ref, ValueKind.Ref, ImmOrPNode.Ref, AddressKind.Ref] at hr
+    first
+      | (subst hr; decide)
+      | (rcases hr with rfl | rfl | rfl <;> decide)
+      | (rcases hr with rfl | rfl <;> decide)
+  | _ + 12, hg => simp [Ex.cx, Ex.graph] at hg
 /-- the hypothesis of `fuel_mono` holds with fuel 4, and fails with fuel 1 -/
 example : (exec Ex.cx 4 (.intSet 5 9) Ex.st).1 ≠ .err .outOfFuel ∧
     (exec Ex.cx 1 (.intSet 5 9) Ex.st).1 = .err .outOfFuel := by
